@@ -41,7 +41,7 @@ func genC12(packet bool, maxOps int) func(t *rapid.T) C12Case {
 		n := rapid.IntRange(1, maxOps).Draw(t, "nops")
 		c.Ops = append(c.Ops, C12Op{Kind: "acquire"})
 		for i := 0; i < n; i++ {
-			op := C12Op{Kind: rapid.SampledFrom([]string{"acquire", "close", "close", "call", "call", "call", "send", "send", "send", "settle"}).Draw(t, "kind")}
+			op := C12Op{Kind: rapid.SampledFrom([]string{"acquire", "acquire_blocked", "close", "close", "call", "call", "call", "send", "send", "send", "settle"}).Draw(t, "kind")}
 			op.Handle = rapid.IntRange(0, 5).Draw(t, "handle")
 			op.N = rapid.IntRange(1, 3).Draw(t, "n")
 			c.Ops = append(c.Ops, op)
@@ -357,6 +357,41 @@ func runC12Once(c C12Case, info *kit.Info) *kit.Finding {
 				info.NonTrivial = true
 			}
 			w.handles = append(w.handles, h)
+		case "acquire_blocked":
+			// Another process holds the address while the manager tries to listen on it (only possible while the
+			// manager itself has no socket there): the attempt must fail cleanly and leave nothing behind.
+			if len(open()) > 0 {
+				continue
+			}
+			var hold interface{ Close() error }
+			var herr error
+			if c.Packet {
+				hold, herr = net.ListenPacket("udp", addr)
+			} else {
+				hold, herr = net.Listen("tcp", addr)
+			}
+			if herr != nil {
+				// the manager's previous socket may still be closing: skip rather than judge
+				continue
+			}
+			var lerr error
+			if c.Packet {
+				var pc net.PacketConn
+				if pc, lerr = w.mgr.ListenPacket(addr); lerr == nil {
+					pc.Close()
+				}
+			} else {
+				var sl service.StreamListener
+				if sl, lerr = w.mgr.ListenStream(addr); lerr == nil {
+					sl.Close()
+				}
+			}
+			hold.Close()
+			if lerr == nil {
+				return kit.Violation("listener:acquired-held-address", "op %d: listening on %s succeeded although another socket holds the address", i, addr)
+			}
+			info.Class("failed-acquire")
+			info.NonTrivial = true
 		case "close":
 			if o := open(); len(o) > 0 {
 				if f := closeHandle(o[op.Handle%len(o)]); f != nil {
